@@ -18,7 +18,7 @@ func (c *c02Oracle) Check(w *World, o *Obs) []Violation {
 		return nil
 	}
 	st := o.Step
-	uidPut, hasUID := o.sessPut("uid")
+	uidPut, hasUID := w.loginPut(o)
 	if !hasUID || uidPut == "" {
 		// reach: a 2FA account's primary credential parked the login
 		if st.Kind == "login" || st.Kind == "otp_login" || st.Kind == "recover_end" {
@@ -139,7 +139,7 @@ func (c *c03Oracle) Check(w *World, o *Obs) []Violation {
 	}
 	switch st.Kind {
 	case "login", "otp_login", "oauth2_callback", "recover_end", "totp_validate", "sms_validate":
-		uidPut, ok := o.sessPut("uid")
+		uidPut, ok := w.loginPut(o)
 		if !ok || uidPut == "" {
 			// reach: a gated account presenting good credentials was refused
 			if at := w.classifyAttempt(o); at.kind == "primary_ok" || at.kind == "second_ok" {
